@@ -20,7 +20,8 @@ TIERS = {"C04": (1500, 160, 40000, 1200)}
 PROBES = {"C04": ["constructor_args_varied", "nested_param_set", "component_replaced",
                   "unknown_param_rejected", "clone_of_fitted", "not_fitted_calls_checked",
                   "fit_leaves_params_checked", "composite_depth2", "pickle_unfitted",
-                  "ordered_set_params", "deep_names_checked", "params_after_update_checked"]}
+                  "ordered_set_params", "deep_names_checked", "params_after_update_checked",
+                  "second_fit_checked", "failed_fit_checked"]}
 FAULT_KINDS = {"C04": ["clone_midway", "pickle_roundtrip", "set_params_midway"]}
 RULE = {"C04": (
     "for a seeded choice of estimator class (all 76 importable classes), constructor-argument "
@@ -67,7 +68,10 @@ def required_args(name, rng):
     from sktime.transformations.series.detrend import Deseasonalizer, Detrender
     r = rng.random()
     if name == "ColumnEnsembleClassifier":
-        return {"estimators": [("a", _tsf(2), [0]), ("b", _tsf(3, 2), [0])]}
+        ests = [("a", _tsf(2), [0]), ("b", _tsf(3, 2), [0])]
+        if r < 0.4:
+            ests.insert(rng.randrange(3), ("c", "drop", [0]))
+        return {"estimators": ests}
     if name in ("EnsembleForecaster", "OnlineEnsembleForecaster"):
         ms = [("a", _naive()), ("b", _trend(degree=rng.choice([1, 2])))]
         if r < 0.4:
@@ -137,6 +141,16 @@ SMALL = {"n_estimators": [2, 3], "max_ensemble_size": [2, 3], "n_parameter_sampl
          "n_sigma": [2, 3], "num_intervals": [2, 4], "word_length": [4], "window_size": [8],
          "n_intervals": [2], "num_levels": [1, 2], "m": [4], "acf_lag": [4], "acf_min_values": [2],
          "random_state": [0, 7], "n_jobs": [None, 1], "alphabet_size": [4], "pad_length": [None]}
+CLASS_POOLS = {
+    ("NaiveForecaster", "strategy"): ["last", "mean", "drift"],
+    ("EnsembleForecaster", "aggfunc"): ["mean", "median", "min", "max"],
+    ("Deseasonalizer", "model"): ["additive", "multiplicative"],
+    ("ConditionalDeseasonalizer", "model"): ["additive", "multiplicative"],
+    ("ExponentialSmoothing", "trend"): [None, "add"],
+    ("ThetaForecaster", "deseasonalize"): [True, False],
+    ("Imputer", "method"): ["drift", "linear", "mean", "median", "nearest"],
+    ("BoxCoxTransformer", "method"): ["mle"],
+}
 NOT_FITTABLE = {"HCrystalBallForecaster", "PCATransformer", "IntervalSegmenter", "Rocket", "MiniRocket",
                 "MiniRocketMultivariate", "TemporalDictionaryEnsemble", "IndividualTDE", "WEASEL",
                 "ShapeletTransformClassifier", "ContractedShapeletTransform", "ShapeletTransform",
@@ -151,7 +165,10 @@ def variations(cls, rng):
     for name, p in sig.items():
         if name == "self" or p.kind in (p.VAR_KEYWORD, p.VAR_POSITIONAL):
             continue
-        if name in SMALL and (p.default is p.empty or rng.random() < 0.8):
+        if (cls.__name__, name) in CLASS_POOLS:
+            if rng.random() < 0.7:
+                kw[name] = rng.choice(CLASS_POOLS[(cls.__name__, name)])
+        elif name in SMALL and (p.default is p.empty or rng.random() < 0.8):
             kw[name] = rng.choice(SMALL[name])
         elif p.default is not p.empty and rng.random() < 0.35:
             d = p.default
@@ -172,7 +189,7 @@ def generate(prop, rng, tier):
     n = rng.randint(3, 8)
     pool = ["get_params", "roundtrip_params", "set_flat", "set_unknown", "clone", "call_unfitted",
             "call_unfitted", "fit", "fit", "clone_fitted", "pickle", "set_nested", "replace_component",
-            "set_ordered", "update_fitted"]
+            "set_ordered", "update_fitted", "failing_fit"]
     for _ in range(n):
         ops.append(rng.choice(pool))
     return {"class": cls.__name__, "qual": q, "kind": kind, "ctor_seed": rng.randint(0, 10 ** 6),
@@ -347,6 +364,30 @@ def execute(prop, scen):
     if not check_params("after construction"):
         res.digest = "params"
         return res
+    if name == "ColumnEnsembleClassifier":
+        deep = est.get_params(deep=True)
+        for part in kw["estimators"]:
+            if part[0] not in deep:
+                v("component_name_missing", "get_params(deep=True) lacks component %r (%s)" % (
+                    part[0], "dropped" if part[1] == "drop" else "estimator"),
+                  dropped=part[1] == "drop")
+                break
+        if not res.violations:
+            target = [p_ for p_ in kw["estimators"] if p_[1] != "drop"][-1]
+            repl = clone(target[1])
+            try:
+                est.set_params(**{target[0]: repl})
+                cur = {p_[0]: (p_[1], p_[2]) for p_ in est.estimators}
+                if cur[target[0]][0] is not repl or cur[target[0]][1] != target[2] or \
+                        len(est.estimators) != len(kw["estimators"]):
+                    v("component_not_replaced", "ColumnEnsembleClassifier.set_params(%s=<estimator>) "
+                      "did not replace exactly that component (components now: %s)" % (
+                          target[0], [(p_[0], p_[2]) for p_ in est.estimators]))
+                expected["estimators"] = est.estimators
+                res.probe("component_replaced")
+            except Exception as e:  # noqa
+                v("replace_component_raised", "set_params(%s=<estimator>) raised %s: %s" % (
+                    target[0], type(e).__name__, str(e)[:100]))
     if getattr(est, "is_fitted", False):
         v("fresh_is_fitted", "a freshly constructed estimator reports is_fitted True")
     sc = sched.Scheduler("fifo", 0)
@@ -426,7 +467,8 @@ def execute(prop, scen):
                     v("unknown_param_wrong_error", "unknown parameter raised %s instead of ValueError"
                       % type(e).__name__, exc=type(e).__name__)
                 if comp:
-                    pname = getattr(est, comp)[0][0]
+                    named = [p_ for p_ in getattr(est, comp) if hasattr(p_[1], "get_params")]
+                    pname = (named or getattr(est, comp))[0][0]
                     try:
                         est.set_params(**{"%s__no_such_parameter_xyz" % pname: 1})
                         v("unknown_param_accepted", "set_params(%s__no_such_parameter_xyz=1) was accepted"
@@ -581,11 +623,51 @@ def execute(prop, scen):
                           "%s -> %s" % (k_, _brief(before[k_]), _brief(param_digest(after.get(k_)))),
                           param=k_)
                         break
+            elif op == "failing_fit":
+                # a fit that cannot succeed (series far too short) must raise and must not leave
+                # the estimator claiming to be fitted
+                if kind != "forecaster" or fitted or name in NOT_FITTABLE:
+                    continue
+                try:
+                    est.fit(data["y"].iloc[:2], fh=data["fh"])
+                except Exception:
+                    res.probe("failed_fit_checked")
+                    if getattr(est, "is_fitted", False):
+                        v("fitted_flag_after_failed_fit", "fit raised but is_fitted is True")
+                        break
+                    check_not_fitted(v, res, est, kind, data, NotFittedError, cloned=False)
+                else:
+                    fitted = True   # (it could be fitted on two points after all)
             elif op == "fit":
                 if name in NOT_FITTABLE:
                     continue
                 before = {k_: param_digest(x) for k_, x in est.get_params(deep=False).items()}
                 ids = {k_: id(x) for k_, x in est.get_params(deep=False).items()}
+                if fitted and kind == "forecaster":
+                    # fitting the same object again: without a horizon where the forecaster takes
+                    # it at predict, with another horizon where it needs one at fit
+                    try:
+                        needs = False
+                        try:
+                            from sktime.forecasting.base._sktime import _RequiredForecastingHorizonMixin
+                            needs = isinstance(est, _RequiredForecastingHorizonMixin) or name in (
+                                "StackingForecaster",)
+                        except Exception:
+                            pass
+                        out = est.fit(data["y"], fh=[1, 2, 3]) if needs else est.fit(data["y"])
+                        res.probe("second_fit_checked")
+                        if out is not est or not getattr(est, "is_fitted", False):
+                            v("refit_protocol", "second fit did not return self / set is_fitted")
+                    except Exception as e:  # noqa
+                        if isinstance(e, ValueError) and "must be passed" in str(e) and not needs:
+                            v("refit_raised", "fitting an already fitted %s again (no horizon) raised "
+                              "%s: %s" % (name, type(e).__name__, str(e)[:100]), exc=type(e).__name__)
+                            break
+                        if needs and isinstance(e, ValueError) and "different forecasting horizon" in str(e):
+                            v("refit_raised", "fitting an already fitted %s again with another horizon "
+                              "raised %s" % (name, str(e)[:100]), exc=type(e).__name__)
+                            break
+                    continue
                 try:
                     out = do_fit(est, kind, data)
                 except Exception as e:  # noqa
